@@ -1,6 +1,7 @@
 //! Helper methods for the lalrpop parser
 
 use crate::{
+    expr::Index,
     parse::unescape::{unescape, UnescapeError},
     value::Value,
 };
@@ -31,6 +32,10 @@ pub(crate) fn parse_float_value(value: &str) -> Result<Value, RevalParseError> {
 
 pub(crate) fn parse_decimal_value(value: &str) -> Result<Value, RevalParseError> {
     Ok(Value::Decimal(Decimal::from_str(&value[1..])?))
+}
+
+pub(crate) fn parse_index_value(value: &str) -> Result<Index, RevalParseError> {
+    Ok(Index::from(usize::from_str(value)?))
 }
 
 pub(crate) fn parse_string_literal(value: &str) -> Result<Value, RevalParseError> {
